@@ -207,6 +207,9 @@ func (c *Ctx) judge(rule, key string, f *ssa.Function, bad string, rows []aRow, 
 	switch {
 	case bad == "":
 		c.hold(rule, key, f.Pos(), fmt.Sprintf("%s (%d abstract run(s))", note, len(rows)))
+	case strings.HasPrefix(bad, "UNDECIDED loop in "):
+		// an iterative formulation is outside the loop-free fragment; nothing indicates a defect
+		c.notDecided(rule, key, f.Pos(), strings.TrimPrefix(bad, "UNDECIDED ")+": the function is written with a loop, which the finite-domain interpreter does not unroll")
 	case strings.HasPrefix(bad, "UNDECIDED"):
 		c.undecided(rule, key, f.Pos(), fnName(f), bad, rowsText(rows)...)
 	default:
@@ -503,6 +506,15 @@ func ruleC06Prefix(c *Ctx) {
 	}
 	HS, HP, EQ, SL := `strings.HasSuffix(P,"/")`, `strings.HasPrefix(R,P)`, `[len(P) == len(R)]`, `[47 == R[len(P)]]`
 	rows = aEnumerate(nil, func(e *aEnv) aVal { return c.aCall(m, []aVal{recv, aSym("R")}, e, 0, nil) })
+	// equivalent spellings of the same conditions (given HasPrefix(R,P))
+	renameAtoms(rows, map[string]string{
+		`["" == R[len(P):]]`:         EQ,
+		`[0 == len(R[len(P):])]`:     EQ,
+		`[len(R[len(P):]) == 0]`:     EQ,
+		`[47 == R[len(P):][0]]`:      SL,
+		`[47 == P[(len(P) - 1)]]`:    HS,
+		`strings.HasPrefix(R[len(P):],"/")`: SL,
+	})
 	t := checkTable(rows, []string{HS, HP, EQ, SL}, func(a map[string]bool) string {
 		return fmt.Sprint(a[HP] && (a[HS] || a[EQ] || a[SL]))
 	})
@@ -940,5 +952,18 @@ func ruleC06RefGroup(c *Ctx) {
 			}
 		}
 		c.judge("C06.refgroup", "group-match", matches, bad, rows, "own filter present ⇒ exactly its verdict (the filterless case, a union over subgroups, is a loop and not interpreted)")
+	}
+}
+
+
+// renameAtoms maps equivalent spellings of a condition onto the canonical atom.
+func renameAtoms(rows []aRow, alias map[string]string) {
+	for i := range rows {
+		for from, to := range alias {
+			if v, ok := rows[i].Atoms[from]; ok {
+				delete(rows[i].Atoms, from)
+				rows[i].Atoms[to] = v
+			}
+		}
 	}
 }
